@@ -123,11 +123,8 @@ def gen_pad(rng, row) -> dict:
     cols = [c for c in PAD_COLS if rng.random() < 0.3] or [rng.choice(PAD_COLS)]
     pad = {}
     for c in cols:
-        if c == "type" and row["type"] == "template_definition" and row["tpl_args"]:
-            # kept away from a defect of the unchanged code (reported, outside C10): the `template_arguments` column is
-            # routed by the RAW type cell (`row["type"] == "template_definition"` in header_name_to_field_name_with_context),
-            # so `template_definition ` loses its argument definitions
-            continue
+        # the type cell of a template_definition row WITH arguments is padded like any other (F-C10-a, fixed in bfa715d: the
+        # `template_arguments` column was routed by the RAW type cell, so `template_definition ` lost its argument definitions)
         side = rng.choice(["l", "r", "r", "lr"])
         pad[c] = [gen_ws(rng) if "l" in side else "", gen_ws(rng) if "r" in side else ""]
     return pad
@@ -663,6 +660,8 @@ def pad_strata(allrows, active) -> set:
                 st.add("padded_cell.trailing")
             for ch in left + right:
                 st.add("padded_cell.ws." + ("space" if ch == " " else "ascii_control" if ord(ch) < 128 else "unicode"))
+            if col == "type" and r["type"] == "template_definition" and r.get("tpl_args"):
+                st.add("padded_cell.type_of_template_definition_with_arguments(F-C10-a)" + (".row_in_effect" if id(r) in active else ""))
             if col in ("status", "tags.1", "tags.2") and values[col]:
                 # the cell decides whether the row is in effect
                 st.add("padded_cell.on_row_filter." + ("row_in_effect" if id(r) in active else "row_not_in_effect"))
@@ -784,6 +783,7 @@ REQUIRED_STRATA = [
     "padded_cell.text", "padded_cell.whitespace_only", "padded_cell.leading", "padded_cell.trailing", "padded_cell.ws.space",
     "padded_cell.ws.ascii_control", "padded_cell.ws.unicode", "padded_cell.on_row_filter.row_in_effect",
     "padded_cell.on_row_filter.row_not_in_effect", "padded_cell.row_in_effect", "padded_cell.row_not_in_effect",
+    "padded_cell.type_of_template_definition_with_arguments(F-C10-a).row_in_effect",
 ] + ["padded_cell.column." + c for c in PAD_COLS]
 
 
